@@ -8,8 +8,9 @@ From Dashu Require Import Base.Prelude Base.Words Int.ModRingSpec Int.ModRingSpe
   Int.ModRingConv Int.ModRingConvProofs Int.ModRingWordsSrc Int.ModRingConvInst Int.ModRingConvInstProofs Int.ModRingGenProofs
   Int.GrlModel Int.ModRingGcdSmall
   Int.GrlLehmer Int.ModRingLehmer Int.ModRingLehmerGuess Int.ModRingLehmerProofs Int.ModRingLehmerInst Int.ModRingLehmerSrc
-  Int.RingAdd Int.ModRingReducerWords Int.ModRingReducerWordsProofs Int.ModRingClone Int.ModRingCloneProofs.
-From DashuGen Require Import ModRingGen.
+  Int.RingAdd Int.ModRingReducerWords Int.ModRingReducerWordsProofs Int.ModRingClone Int.ModRingCloneProofs
+  Int.ModRingWInst Int.ModRingWInstProofs Int.ModRingBodiesGenProofs.
+From DashuGen Require Import ModRingGen ModRingBodiesGen.
 Open Scope Z_scope.
 
 (** ---------------- what the statement demands of the specification ---------------- *)
@@ -802,3 +803,137 @@ Theorem C13_clone_from : forall m1 m2 a b c, 1 <= m1 -> 1 <= m2 ->
   run_clone_from m1 m2 a b c = Ok (m1, reduce_spec m1 a, true, reduce_spec m1 (a + c)).
 Proof. exact run_clone_from_correct. Qed.
 Print Assumptions C13_clone_from.
+
+(** ---------------- round 5: the runs of the oracle at EVERY word size w >= 8 ---------------- *)
+(** the correspondence run evaluates the three as-is instances at the word size of the build: 64, and 32 against the
+    force_bits="32" build (Word = u32: rings of one / two / three and more 32-bit words, normalisation shifts 0..31);
+    `g<name> w` is the instance with the word size as a parameter *)
+Theorem C13_wrun_value : forall w, 8 <= w -> forall m a b e id, 1 <= m -> 0 <= e ->
+  grun_reduce w m a = Ok (reduce_spec m a, m) /\
+  (forall o, grun_bin w o id id m m a b = bin_spec o m a b) /\
+  (forall o, grun_un w o m a = Ok (un_spec o m a)) /\
+  grun_pow w m a e = Ok ((a ^ e) mod m) /\
+  grun_inv w m a = Ok (inv_spec m a) /\
+  grun_eq w id id m m a b = Ok (reduce_spec m a =? reduce_spec m b).
+Proof. exact wrun_value_spec. Qed.
+Print Assumptions C13_wrun_value.
+
+Theorem C13_wrun_mixed : forall w, 8 <= w -> forall o id1 id2 m1 m2 a b, 1 <= m1 -> 1 <= m2 -> id1 <> id2 ->
+  grun_bin w o id1 id2 m1 m2 a b =
+  match o with
+  | ODiv => if inv_spec m2 b then Panic DifferentRings else Panic NonInvertible
+  | _ => Panic DifferentRings
+  end.
+Proof. exact grun_bin_mixed. Qed.
+Print Assumptions C13_wrun_mixed.
+
+Theorem C13_wrun_reducer : forall w, 8 <= w -> forall o m a b, 1 <= m -> 0 <= a -> 0 <= b ->
+  (exists raw, grun_rd w true o m a b = Ok (rd_spec o m a b, true, raw)) /\
+  grun_rd_check w true m a = grd_check_spec w m a /\
+  grun_rd_modulus w m = Ok m /\
+  (exists r, grun_rd_inv w m a = Ok r /\
+    match r, inv_spec m a with
+    | Some (res, chk, _), Some iv => res = iv /\ chk = true
+    | None, None => True
+    | _, _ => False
+    end).
+Proof. exact wrun_reducer_spec. Qed.
+Print Assumptions C13_wrun_reducer.
+
+Theorem C13_wrun_clone_from : forall w, 8 <= w -> forall m1 m2 a b c, 1 <= m1 -> 1 <= m2 ->
+  grun_clone_from w m1 m2 a b c = Ok (m1, reduce_spec m1 a, true, reduce_spec m1 (a + c)).
+Proof. exact grun_clone_from_correct. Qed.
+Print Assumptions C13_wrun_clone_from.
+
+(** word lists + the real kernels (C01 multiply / sqr, C02 div_rem_in_place, num-modular transcribed) at word size w *)
+Theorem C13_whrun_ring : forall w, 8 <= w -> forall m a b e, 1 <= m -> 0 <= e ->
+  ghrun_reduce w m a = Ok (reduce_spec m a, m) /\
+  (forall o, ghrun_bin w o m a b = bin_spec o m a b) /\
+  (forall o, ghrun_un w o m a = Ok (un_spec o m a)) /\
+  ghrun_pow w m a e = Ok (powm m a e) /\
+  ghrun_inv w m a = Ok (inv_spec m a) /\
+  ghrun_eq w m a b = Ok (reduce_spec m a =? reduce_spec m b) /\
+  (0 <= a -> ghrun_transform w m a = rbind (new_ring w 0 m) (fun r => Ok (reduce_spec m a * 2 ^ r_shift r))).
+Proof. exact whrun_ring_spec. Qed.
+Print Assumptions C13_whrun_ring.
+
+(** inverse / division with the extended gcd of the source (gcd_ext_word / gcd_ext_dword / Lehmer) at word size w *)
+Theorem C13_whrun_gcd_src : forall w, 8 <= w -> forall m a b, 1 <= m ->
+  ghrun_inv_src w m a = Ok (inv_spec m a) /\
+  ghrun_div_src w m a b = div_spec m a b /\
+  (a mod m <> 0 -> exists br g c s, ghrun_gcd_probe w m a = Ok (br, g, c, s) /\ g = Z.gcd m (a mod m) /\ 0 <= c < m /\ 1 <= br <= 3).
+Proof. exact whrun_gcd_src_spec. Qed.
+Print Assumptions C13_whrun_gcd_src.
+
+Theorem C13_whrun_rd_lin : forall w, 8 <= w -> forall o m a b, 1 <= m -> 0 <= a -> 0 <= b -> (o = RAdd \/ o = RDbl \/ o = RSub \/ o = RNeg) ->
+  ghrun_rd_lin w o m a b = rbind (grun_rd w true o m a b) (fun t => Ok (snd t)).
+Proof. exact ghrun_rd_lin_correct. Qed.
+Print Assumptions C13_whrun_rd_lin.
+
+(** at w = 64 the parametrised runs are the 64-bit instances of rounds 1-4 *)
+Theorem C13_wruns_at_64 :
+  grun_reduce 64 = run_reduce /\ grun_bin 64 = run_bin /\ grun_un 64 = run_un /\ grun_pow 64 = run_pow /\ grun_inv 64 = run_inv /\
+  grun_eq 64 = run_eq /\ grun_rd 64 = run_rd /\ grun_rd_inv 64 = run_rd_inv /\ grun_rd_check 64 = run_rd_check /\
+  grd_check_spec 64 = rd_check_spec /\ grun_rd_modulus 64 = run_rd_modulus /\ grun_clone_from 64 = run_clone_from /\
+  ghrun_reduce 64 = hrun_reduce /\ ghrun_bin 64 = hrun_bin /\ ghrun_un 64 = hrun_un /\ ghrun_pow 64 = hrun_pow /\
+  ghrun_inv 64 = hrun_inv /\ ghrun_eq 64 = hrun_eq /\ ghrun_transform 64 = hrun_transform /\
+  ghrun_inv_src 64 = hrun_inv_src /\ ghrun_div_src 64 = hrun_div_src /\ ghrun_gcd_probe 64 = hrun_gcd_probe /\
+  ghrun_rd_lin 64 = hrun_rd_lin.
+Proof. exact gruns_at_64. Qed.
+Print Assumptions C13_wruns_at_64.
+
+(** ---------------- round 5: bodies regenerated from modular/{add,repr}.rs = the hand models ---------------- *)
+(** coq/gen/ModRingBodiesGen.v is rewritten from the Rust source on every run (tools/translate_c13_r5.py over the parser of
+    tools/translate_c01_r4.py): negate / add / dbl / sub / sub_swap in place with their debug assertions, the zero guard of
+    negate_in_place, the conditional correction steps, ReducedLarge::is_valid - every word size, ring, operand *)
+Theorem C13_gen_bodies : forall w R a b,
+  is_valid_gen w (lr_nd R) (lr_shift R) a = wl_is_valid R a /\
+  negate_in_place_gen w (lr_nd R) (lr_shift R) a = wl_negate_in_place w R a /\
+  add_in_place_gen w (lr_nd R) (lr_shift R) a b = wl_add_in_place w R a b /\
+  dbl_in_place_gen w (lr_nd R) (lr_shift R) a = wl_dbl_in_place w R a /\
+  sub_in_place_gen w (lr_nd R) (lr_shift R) a b = wl_sub_in_place w R a b /\
+  sub_in_place_swap_gen w (lr_nd R) (lr_shift R) a b = wl_sub_in_place w R a b.
+Proof. exact gen_bodies_eq. Qed.
+Print Assumptions C13_gen_bodies.
+
+(** Clone for ReducedRepr: `clone` rebuilds every arm from its own fields; `clone_from` sets BOTH the ring (`*ring = src_ring`)
+    and the content in the (Large, Large) arm and is `*self = source.clone()` otherwise: the destination becomes the source *)
+Theorem C13_gen_clone : forall dst src, clone_gen src = clone_asis src /\ clone_from_gen dst src = clone_from_asis dst src.
+Proof. intros dst src. split; [exact (clone_gen_eq src) | exact (clone_from_gen_eq dst src)]. Qed.
+Print Assumptions C13_gen_clone.
+
+(** reducer.rs regenerated: reduce_once / reduce_negate (every ring arm, the Small / Large target arms) and Reducer::add / dbl /
+    sub / neg built from them = the value-level model of rounds 1-4 (C13_asis_reducer is about that model) *)
+Theorem C13_gen_reducer : forall w r x y,
+  reduce_once_gen w r x = rd_reduce_once_with w true r x /\ reduce_negate_gen w r x = rd_reduce_negate r x /\
+  rd_add_gen w r x y = rd_add_with w true r x y /\ rd_dbl_gen w r x = rd_dbl_with w true r x /\
+  rd_sub_gen w r x y = rd_sub r x y /\ rd_neg_gen w r x = rd_neg r x.
+Proof. exact gen_reducer_eq. Qed.
+Print Assumptions C13_gen_reducer.
+
+(** div.rs regenerated: inv_large after the extended gcd (`if !is_g_one { return None; }`, shift back, validity assertion, the
+    sign line `if b_sign == Sign::Negative { negate_in_place }`, Some(inv)) = that part of the hand model wl_inv_large, which is
+    its gcd prefix followed by this tail *)
+Theorem C13_gen_inv_tail : forall w fgcd R raw g s bw,
+  inv_large_tail_gen w (lr_nd R) (lr_shift R) g s bw = wl_inv_tail w R g s bw /\
+  wl_inv_large w fgcd R raw =
+  (let n := length (lr_nd R) in
+   let '(modulus, c1) := shr_in_place w (lr_nd R) (lr_shift R) in
+   if negb (c1 =? 0) then Panic Undocumented else
+   let '(raw1, c2) := shr_in_place w raw (lr_shift R) in
+   if negb (c2 =? 0) then Panic Undocumented else
+   let raw_len := top_plus_one raw1 in
+   if Nat.eqb raw_len 0 then Ok None else
+   let '(g, b, b_sign) := fgcd (Words.value w modulus) (Words.value w (firstn raw_len raw1)) in
+   let is_g_one :=
+     if (raw_len <=? 2)%nat then g =? 1
+     else let gw := to_words w raw_len g in Nat.eqb (top_plus_one gw) 1 && (hd 0 gw =? 1) in
+   wl_inv_tail w R is_g_one b_sign (to_words w n b)).
+Proof. intros w fgcd R raw g s bw. split; [exact (inv_large_tail_gen_eq w R g s bw) | exact (wl_inv_large_is_prefix_tail w fgcd R raw)]. Qed.
+Print Assumptions C13_gen_inv_tail.
+
+(** pow.rs regenerated: the window read of large::pow_nontrivial (word index / bit index, the two exponent words, the shift by
+    bit_idx + 1 + WORD_BITS - window_len, the mask) = window_at of the sliding-window model, every word size *)
+Theorem C13_gen_pow_window : forall w exp bit wl, 0 <= wl -> pow_window_gen w exp bit wl = window_at w exp bit wl.
+Proof. exact pow_window_gen_eq. Qed.
+Print Assumptions C13_gen_pow_window.
